@@ -18,47 +18,70 @@ def sh(cmd, **kw):
     return r.returncode, r.stdout
 
 
+def one_patch(p, props, idx):
+    from concurrent.futures import ThreadPoolExecutor
+    wt = tempfile.mkdtemp(prefix="okref%d-" % idx)
+    ev = tempfile.mkdtemp(prefix="okref-ev%d-" % idx)
+    os.rmdir(wt)
+    try:
+        subprocess.run(["git", "-C", "/repo", "worktree", "add", "--detach", "-q", wt, "HEAD"], check=True)
+        rc, out = sh(["git", "-C", wt, "apply", os.path.abspath(p)])
+        if rc != 0:
+            return {"patch": p, "status": "does not apply"}
+        env = dict(os.environ, OKANE_REPO=wt)
+
+        def run(pr):
+            e = dict(env, VERIF_EVIDENCE_DIR=os.path.join(ev, pr))
+            rc, out = sh([os.path.join(VERIF, "check"), pr], cwd=VERIF, env=e)
+            if rc != 0:
+                return pr, [l.strip()[:260] for l in out.splitlines() if l.startswith("   violated:") or l.startswith("ANCHOR-MISSING")][:4]
+            return pr, None
+        fired = {}
+        first = run(props[0])        # builds the fact cache for this tree
+        if first[1] is not None:
+            fired[first[0]] = first[1]
+        with ThreadPoolExecutor(max_workers=5) as ex:
+            for pr, v in ex.map(run, props[1:]):
+                if v is not None:
+                    fired[pr] = v
+        return {"patch": p, "fired": fired}
+    finally:
+        subprocess.run(["git", "-C", "/repo", "worktree", "remove", "--force", wt], stdout=subprocess.DEVNULL, stderr=subprocess.DEVNULL)
+        shutil.rmtree(wt, ignore_errors=True)
+        shutil.rmtree(ev, ignore_errors=True)
+
+
 def main(argv):
+    from concurrent.futures import ThreadPoolExecutor
     out_json = argv[argv.index("--json") + 1] if "--json" in argv else None
+    jobs = int(argv[argv.index("--jobs") + 1]) if "--jobs" in argv else 3
     patches = [a for a in argv if a.endswith((".diff", ".patch"))]
     from rules import registry
     props = sorted(registry.CLAIMED)
     if "--props" in argv:
         props = argv[argv.index("--props") + 1].split(",")
-    wt = tempfile.mkdtemp(prefix="okref-")
-    ev = tempfile.mkdtemp(prefix="okref-ev-")
-    os.rmdir(wt)
     res = []
-    try:
-        subprocess.run(["git", "-C", "/repo", "worktree", "add", "--detach", "-q", wt, "HEAD"], check=True)
-        for p in patches:
-            sh(["git", "-C", wt, "checkout", "--", "."])
-            sh(["git", "-C", wt, "clean", "-fdq"])
-            rc, out = sh(["git", "-C", wt, "apply", os.path.abspath(p)])
-            if rc != 0:
-                print("%-60s does not apply" % p)
-                res.append({"patch": p, "status": "does not apply"})
+    nfired = 0
+    with ThreadPoolExecutor(max_workers=jobs) as ex:
+        futs = [ex.submit(one_patch, p, props, i) for i, p in enumerate(patches)]
+        for f in futs:
+            r = f.result()
+            res.append(r)
+            if r.get("status"):
+                print("%-60s %s" % (r["patch"], r["status"]))
                 continue
-            env = dict(os.environ, OKANE_REPO=wt, VERIF_EVIDENCE_DIR=ev)
-            fired = {}
-            for pr in props:
-                rc, out = sh([os.path.join(VERIF, "check"), pr], cwd=VERIF, env=env)
-                if rc != 0:
-                    fired[pr] = [l.strip()[:260] for l in out.splitlines() if l.startswith("   violated:") or l.startswith("ANCHOR-MISSING")][:4]
-            print("%-60s %s" % (p, "silent" if not fired else "FIRED: " + ", ".join(sorted(fired))))
-            for k, v in fired.items():
+            fired = r["fired"]
+            nfired += 1 if fired else 0
+            print("%-60s %s" % (r["patch"], "silent" if not fired else "FIRED: " + ", ".join(sorted(fired))))
+            for k, v in sorted(fired.items()):
                 for l in v:
                     print("      %s %s" % (k, l))
-            res.append({"patch": p, "fired": fired})
             sys.stdout.flush()
-    finally:
-        subprocess.run(["git", "-C", "/repo", "worktree", "remove", "--force", wt], stdout=subprocess.DEVNULL, stderr=subprocess.DEVNULL)
-        shutil.rmtree(wt, ignore_errors=True)
-        shutil.rmtree(ev, ignore_errors=True)
-        subprocess.run(["git", "-C", "/repo", "worktree", "prune"], stdout=subprocess.DEVNULL)
+    subprocess.run(["git", "-C", "/repo", "worktree", "prune"], stdout=subprocess.DEVNULL)
     if out_json:
         json.dump(res, open(out_json, "w"), indent=1)
-    return 0
+    print("refactor_eval: %d patches, %d raise an alarm" % (len(res), nfired))
+    return 1 if nfired else 0
 
 
 if __name__ == "__main__":
